@@ -29,12 +29,28 @@ type Quote struct {
 
 func Q(ss, sb, ds, db int) Quote { return Quote{Std: &Rate{ss, sb}, Data: &Rate{ds, db}} }
 
+// builds counts Build calls: the way the quote object is put together rotates with it (what the quote SAYS is the same).
+var builds int
+
 func (q Quote) Build() *bt.FeeQuote {
 	fq := bt.NewFeeQuote()
+	builds++
+	shape := builds % 4
+	if shape == 2 && q.Std != nil && q.Data != nil && *q.Std == *q.Data {
+		// one rate for everything: the caller registers ONE Fee object under both fee types
+		f := &bt.Fee{FeeType: bt.FeeTypeStandard, MiningFee: bt.FeeUnit{Satoshis: q.Std.Sat, Bytes: q.Std.Bytes}, RelayFee: bt.FeeUnit{Satoshis: 2*q.Std.Sat + 3, Bytes: 3*q.Std.Bytes + 1}}
+		return fq.AddQuote(bt.FeeTypeStandard, f).AddQuote(bt.FeeTypeData, f)
+	}
 	set := func(ft bt.FeeType, r *Rate) {
 		if r == nil {
 			fq.AddQuote(ft, nil)
 			return
+		}
+		label := ft
+		if shape == 1 {
+			// the Fee value was derived from the other type's (copied, rate changed) and still carries that label: the
+			// key it is registered under decides what it is the rate of
+			label = map[bt.FeeType]bt.FeeType{bt.FeeTypeStandard: bt.FeeTypeData, bt.FeeTypeData: bt.FeeTypeStandard}[ft]
 		}
 		// the relay fee plays no part in any estimate: it is deliberately different from the mining fee (and different
 		// for the two fee types), so that an estimate that reads it is off
@@ -42,7 +58,7 @@ func (q Quote) Build() *bt.FeeQuote {
 		if ft == bt.FeeTypeData {
 			relay = bt.FeeUnit{Satoshis: 5*r.Sat + 1, Bytes: 2*r.Bytes + 7}
 		}
-		fq.AddQuote(ft, &bt.Fee{FeeType: ft, MiningFee: bt.FeeUnit{Satoshis: r.Sat, Bytes: r.Bytes}, RelayFee: relay})
+		fq.AddQuote(ft, &bt.Fee{FeeType: label, MiningFee: bt.FeeUnit{Satoshis: r.Sat, Bytes: r.Bytes}, RelayFee: relay})
 	}
 	set(bt.FeeTypeStandard, q.Std)
 	set(bt.FeeTypeData, q.Data)
